@@ -79,7 +79,8 @@ Apply(s, op, a) ==
                        !.rcR = Append(s.rcR, 0)], [k |-> "err"])
     [] op = "create" ->        \* a new mapping, wrapped into a region handle
          LET m == Len(s.maps) + 1
-             s1 == [s EXCEPT !.maps = Append(s.maps, [kind |-> a.kind, mapped |-> TRUE, unmaps |-> 0, start |-> m]),
+             \* ("owned_huge": an owned mapping of 2 MiB + 4 KiB carrying the hugetlbfs hint - the same ownership rules)
+             s1 == [s EXCEPT !.maps = Append(s.maps, [kind |-> IF a.kind = "owned_huge" THEN "owned" ELSE a.kind, mapped |-> TRUE, unmaps |-> 0, start |-> m]),
                              !.rcR = Append(s.rcR, 1)] IN
          Res(Push(s1, [k |-> "region", r |-> m]), Ok(Len(s.slots) + 1))
     [] op = "build_map" ->     \* from_arc_regions over clones of region handles
